@@ -328,6 +328,13 @@ impl Store {
                         None => (None, 0),
                     };
 
+                    // The historical scan may already have delivered the whole limit
+                    if let Some(limit) = limit {
+                        if count >= limit {
+                            return;
+                        }
+                    }
+
                     let mut broadcast_rx = broadcast_rx;
                     while let Ok(frame) = broadcast_rx.recv().await {
                         // Skip frames that do not match the context_id
